@@ -14,7 +14,7 @@ RULE = ("every (sequences, custom distance, max_edits, max_custom_distance, engi
         "naively; both CSV tables are checked entry by entry; non-trivial = expected set non-empty")
 ASSUMPTIONS = ["pwseqdist is absent: /verif/standins/pwseqdist supplies apply_pairwise_sparse + nb_vector_tcrdist (own implementation); what is decided is pyrepseq's composition (candidate search, positional lookup, V table, chain sum, radius), not pwseqdist",
                "custom distances are symmetric with d(x,x)=0 as the property requires"]
-REQUIRED_CLASSES = {"all": ["lev-ok-custom-too-far", "custom-ok-lev-too-far", "real-valued-distance", "infinite-max_custom_distance", "tcrdist-empty-result", "tcrdist-chain-both", "vtable-entry", "history-changes-distance-function", "library-function-object-as-distance", "tcrdist-kwargs-history", "kdtree-radius-boundary", "tcrdist-large-table"]}
+REQUIRED_CLASSES = {"all": ["lev-ok-custom-too-far", "custom-ok-lev-too-far", "real-valued-distance", "infinite-max_custom_distance", "tcrdist-empty-result", "tcrdist-chain-both", "vtable-entry", "history-changes-distance-function", "library-function-object-as-distance", "tcrdist-kwargs-history", "kdtree-radius-boundary", "tcrdist-large-table", "kdtree-max_returns-with-callable"]}
 MIN_OUTCOMES = 10
 
 INF = float("inf")
@@ -254,6 +254,30 @@ def check_case(case, acc):
                         continue
                     _cmp(acc, case, eng, seqs, k, cname, maxcd, seqs[::-1], True)
                 _cmp(acc, case, "symdel2", seqs, k, cname, maxcd, seqs, True)
+            # kdtree with max_returns under a callable distance: per query min(m, #inside both radii) pairs, all inside both radii,
+            # none omitted that is strictly closer in the custom distance
+            if cname in ("lendiff", "halflev", "lev+lendiff"):
+                for m in (1, 2):
+                    for maxcd in (INF, 1):
+                        exp = expected_custom(seqs, k, cname, maxcd)
+                        res = acc.call(__import__("pyrepseq").kdtree, list(seqs), k, custom_distance=CUSTOM[cname], max_custom_distance=maxcd, max_returns=m)
+                        acc.cls("kdtree-max_returns-with-callable")
+                        if raised(res):
+                            acc.fail("kdtree/custom-callable/max_returns/raised-%s" % res.type, ("list", seqs, cname), sorted(exp), res)
+                            return
+                        true = {}
+                        for i, j, d in exp:
+                            true.setdefault(i, {})[j] = d
+                        got = {}
+                        for i, j, d in res:
+                            got.setdefault(int(i), {})[int(j)] = d
+                        for i in range(len(seqs)):
+                            t, g = true.get(i, {}), got.get(i, {})
+                            omitted = [d for j, d in t.items() if j not in g]
+                            if len(g) != min(m, len(t)) or any(j not in t or t[j] != d for j, d in g.items()) or (g and omitted and max(g.values()) > min(omitted)):
+                                acc.fail("kdtree/custom-callable/max_returns/per-query-result", ("list", seqs, cname), {"query": i, "inside-both-radii": sorted(t.items()), "max_returns": m}, sorted(g.items()), note="k=%d maxcd=%r" % (k, maxcd))
+                                return
+                        acc.ok()
     elif kind == "one":
         _, eng, seqs, k, cname, maxcd, queries = case
         _cmp(acc, case, eng, list(seqs), k, cname, maxcd, None if queries is None else list(queries), True)
